@@ -33,6 +33,9 @@ void h_struct(void) {   /* + - and the non-IEEE * / are exactly the textbook for
 #else
   u8 op = op0, ieee = ieee0; VASSUME(op < 4 && ieee < 2);
 #endif
+#ifdef AXISFIX   /* quick tier: the right operand on an axis (AXISFIX 1: purely imaginary, 2: real) - most products fold, so the multiplier/divider identities are cheap there */
+  VASSUME(AXISFIX == 1 ? (cb << 1) == 0 : (db << 1) == 0);
+#endif
 #ifdef REFCLOSURE
   WF(cmpd_ref)(ieee, op, ab, bb, cb, db, out);              /* compound assignment through reference closures: the referents receive the result */
   VASSERT(out[2] == cb && out[3] == db, "compound assignment leaves the right operand alone");
@@ -60,6 +63,23 @@ void h_scalar(void) {   /* mixed real/complex forms in both operand orders: the 
   }
   if (CFIN(a, b) && ISFIN(s) && !(op == 3 && s == 0) && !(op == 7 && CZERO(a, b)) && !ISNAN(ex) && !ISNAN(ey) && ex != 0 && ey != 0)
     VASSERT(x == ex && y == ey, "mixed real/complex operators equal complex arithmetic with the real operand as (s, 0)");
+  HARNESS_END();
+}
+/* scalar on the left: `s op z` is computed by promoting s to (s, 0) - in both multiplier configurations it must equal the complex/complex operator on (s, 0) bit for bit
+ * (two runs of the same circuits: cheap, so this is in the quick tier; it is what ties s / z to the Annex G division) */
+void h_scalar_promote(void) {
+  INPUTS; IN(u8, op); IN(u8, ieee); VASSUME(op < 4 && ieee < 2); (void)d; (void)db;
+#ifdef SOPFIX
+  op = SOPFIX;
+#endif
+#ifdef SIEEEFIX
+  ieee = SIEEEFIX;
+#endif
+  UT o2[13]; for (int i = 0; i < 13; i++) o2[i] = 0;
+  WF(scalar)(ieee, 4 + op, ab, bb, cb, out);
+  WF(bin)(ieee, op, cb, 0, ab, bb, o2);
+  VASSERT(SAME(F_(out[0]), F_(o2[0])) && SAME(F_(out[1]), F_(o2[1])), "s op z equals (s, 0) op z (scalar left operand, both multiplier configurations)");
+  WITNESS("finite_operands", CFIN(a, b) && ISFIN(c));
   HARNESS_END();
 }
 void h_misc(void) {
